@@ -17,15 +17,11 @@ func init() {
 			Kind: slip.MacroSymbol,
 			Name: "psetq",
 			Args: []*slip.DocArg{
+				{Name: "&rest"},
 				{
-					Name: "symbol",
-					Type: "symbol",
-					Text: "The symbol to bind to the _value_.",
-				},
-				{
-					Name: "value",
+					Name: "symbol-value-pairs",
 					Type: "object",
-					Text: "The value to assign to _symbol.",
+					Text: "Any number of pairs of a _symbol_, which is not evaluated, and the _value_ to assign to it.",
 				},
 			},
 			Return: "object",
